@@ -105,12 +105,14 @@ def make_replay(r, ob, pid, suite_dir):
         reproduced = True
         doc["native_output"] = r.get("native_output")
     spec = ob.get("replay")
-    if spec and r.get("cex"):
+    # no_args: the replay program searches a fixed adversarial family itself (used where the verifier's counterexample is a
+    # havocked loop-invariant state rather than an input)
+    if spec and (r.get("cex") or spec.get("no_args")):
         scratch = tempfile.mkdtemp(prefix="rxv.replay.")
         log = []
         try:
             exe = build_native(spec, suite_dir, scratch, log)
-            args = _args_from_cex(spec, r["cex"])
+            args = [] if spec.get("no_args") else _args_from_cex(spec, r["cex"])
             rc, so, se, to, dt = C.run([exe] + args, scratch, 600, 8, log=log)
             doc["replay_args"] = args
             doc["replay_prog"] = spec["prog"]
@@ -141,14 +143,14 @@ def replay_file(path, pid, suite, suite_dir):
     spec = ob.get("replay")
     if ob.get("kind") == "native":
         spec = None
-    if not spec or not doc.get("replay_args"):
+    if not spec or (not doc.get("replay_args") and not spec.get("no_args")):
         print("no native replay recorded for this obligation (no-failing-input-found); verifier output:")
         print(json.dumps(doc.get("verifier_output"), indent=1))
         return 1 if doc.get("failed") else 0
     scratch = tempfile.mkdtemp(prefix="rxv.replay.")
     try:
         exe = build_native(spec, suite_dir, scratch, [])
-        rc, so, se, to, dt = C.run([exe] + doc["replay_args"], scratch, 600, 8)
+        rc, so, se, to, dt = C.run([exe] + (doc.get("replay_args") or []), scratch, 600, 8)
         print(so + se)
         print("replay rc=%d (%s)" % (rc, "REPRODUCED" if rc == 1 else "not reproduced"))
         return 1 if rc == 1 else 0
